@@ -2,7 +2,7 @@
    non-vacuity) and the declarative reading of the monitor. *)
 From Coq Require Import List ZArith NArith Bool Lia.
 From PC.Base Require Import Assoc.
-From PC.Sup Require Import Model Monitors Check Sim ObsFacts RelC03 RelC03b LemC03.
+From PC.Sup Require Import Model Monitors Check Sim ObsFacts RelC03 RelC03b RelC03x LemC03.
 Import ListNotations.
 Open Scope N_scope.
 
@@ -81,6 +81,11 @@ Lemma c03_nonvacuous :
   holds_C03 c03_cs evs_c03_ok = true /\ length evs_c03_ok = 53%nat /\
   In (5, EShutdownEnd) evs_c03_ok /\ In (3, ELaunch true) evs_c03_ok.
 Proof. repeat split; try (eexists; vm_compute; reflexivity); try (vm_compute; reflexivity); cbn; tauto. Qed.
+
+(* non-vacuity for the C03x theorem: distinct names, no window, the oracle holds on the 53-event history *)
+Lemma c03x_nonvacuous :
+  wf_confs c03_cs = true /\ W_C03 (final_obs c03_cs evs_c03_ok) = false /\ holds_C03x c03_cs evs_c03_ok = true.
+Proof. repeat split; vm_compute; reflexivity. Qed.
 
 (* ---- what the monitor says, position by position -------------------------------------------------------- *)
 Lemma mon_run_at cs (m : obs -> tid * event -> bool) : forall pre o k e post,
